@@ -897,6 +897,30 @@ func (p *Parser) parsePrimaryExpression() (ast.Expression, error) {
 		}, nil
 	}
 
+	// Unary minus / plus: -expr, +expr
+	if p.isType(models.TokenTypeMinus) || p.isType(models.TokenTypePlus) {
+		op := ast.Minus
+		if p.isType(models.TokenTypePlus) {
+			op = ast.Plus
+		}
+		p.depth++
+		defer func() { p.depth-- }()
+		if p.depth > MaxRecursionDepth {
+			return nil, goerrors.RecursionDepthLimitError(
+				p.depth,
+				MaxRecursionDepth,
+				p.currentLocation(),
+				"",
+			)
+		}
+		p.advance() // Consume sign
+		operand, err := p.parseJSONExpression()
+		if err != nil {
+			return nil, err
+		}
+		return &ast.UnaryExpression{Operator: op, Expr: operand}, nil
+	}
+
 	return nil, goerrors.UnexpectedTokenError(
 		p.currentToken.Type.String(),
 		p.currentToken.Literal,
